@@ -1898,3 +1898,298 @@ Qed.
 Theorem reprint_fixed w d nz x :
   parse_fixed (print_fixed w d nz (round_d d x)) = Some (round_d d x).
 Proof. rewrite parse_print_fixed. f_equal. apply round_d_idempotent. Qed.
+
+(* ================================================================== CP2K section trees *)
+
+Fixpoint node_ind' (P : node -> Prop)
+  (H : forall i t s d k, Forall P k -> P (Node i t s d k)) (n : node) : P n :=
+  match n with
+  | Node i t s d k =>
+    H i t s d k ((fix go (l : list node) : Forall P l :=
+                    match l with
+                    | [] => Forall_nil P
+                    | x :: r => Forall_cons x (node_ind' P H x) (go r)
+                    end) k)
+  end.
+
+(* the sections of a tree in depth-first order: (identity, title, (settings, data)) *)
+Definition entry := (nat * str * (list str * list str))%type.
+Fixpoint flat (n : node) : list entry :=
+  match n with Node i t s d k => (i, t, (s, d)) :: flat_map flat k end.
+Definition upd_entry (i : nat) (g : list str * list str -> list str * list str) (e : entry) : entry :=
+  let '(j, t, sd) := e in if (j =? i)%nat then (j, t, g sd) else e.
+(* the shape: identities and titles only *)
+Fixpoint shape (n : node) : node :=
+  match n with Node i t _ _ k => Node i t [] [] (map shape k) end.
+
+Lemma flat_map_ext_Forall {A B} (f g : A -> list B) l :
+  Forall (fun x => f x = g x) l -> flat_map f l = flat_map g l.
+Proof. induction 1 as [|x r Hx _ IH]; cbn; [reflexivity|]. now rewrite Hx, IH. Qed.
+
+Lemma map_ext_Forall {A B} (f g : A -> B) l : Forall (fun x => f x = g x) l -> map f l = map g l.
+Proof. induction 1 as [|x r Hx _ IH]; cbn; [reflexivity|]. now rewrite Hx, IH. Qed.
+
+Lemma flat_map_map {A B C} (f : A -> B) (g : B -> list C) l : flat_map g (map f l) = flat_map (fun x => g (f x)) l.
+Proof. induction l as [|x r IH]; cbn; [reflexivity|]. now rewrite IH. Qed.
+
+Lemma map_flat_map {A B C} (f : B -> C) (g : A -> list B) l : map f (flat_map g l) = flat_map (fun x => map f (g x)) l.
+Proof. induction l as [|x r IH]; cbn; [reflexivity|]. now rewrite map_app, IH. Qed.
+
+(* updating the section with identity i rewrites that section's (settings, data) and leaves
+   every other section, the order and the nesting as they were *)
+Theorem upd_node_flat i g n : flat (upd_node i g n) = map (upd_entry i g) (flat n).
+Proof.
+  induction n as [j t s d k IH] using node_ind'. cbn [upd_node].
+  assert (Hk : flat_map flat (map (upd_node i g) k) = map (upd_entry i g) (flat_map flat k)).
+  { rewrite flat_map_map, map_flat_map. now apply flat_map_ext_Forall. }
+  destruct (j =? i)%nat eqn:E.
+  - destruct (g (s, d)) as [s' d'] eqn:Eg. cbn [flat map upd_entry]. rewrite E, Eg, Hk. reflexivity.
+  - cbn [flat map upd_entry]. rewrite E, Hk. reflexivity.
+Qed.
+
+Theorem upd_node_shape i g n : shape (upd_node i g n) = shape n.
+Proof.
+  induction n as [j t s d k IH] using node_ind'. cbn [upd_node].
+  assert (Hk : map shape (map (upd_node i g) k) = map shape k).
+  { rewrite map_map. now apply map_ext_Forall. }
+  destruct (j =? i)%nat; [destruct (g (s, d))|]; cbn [shape]; now rewrite Hk.
+Qed.
+
+Theorem upd_node_idem i g n : (forall x, g (g x) = g x) -> upd_node i g (upd_node i g n) = upd_node i g n.
+Proof.
+  intros Hg. induction n as [j t s d k IH] using node_ind'. cbn [upd_node].
+  assert (Hk : map (upd_node i g) (map (upd_node i g) k) = map (upd_node i g) k).
+  { rewrite map_map. now apply map_ext_Forall. }
+  destruct (j =? i)%nat eqn:E.
+  - destruct (g (s, d)) as [s' d'] eqn:Eg. cbn [upd_node]. rewrite E.
+    assert (E2 : g (s', d') = (s', d')) by (rewrite <- Eg; apply Hg). rewrite E2, Hk. reflexivity.
+  - cbn [upd_node]. rewrite E, Hk. reflexivity.
+Qed.
+
+(* the dictionary path -> section only looks at identities, titles and settings *)
+Lemma walk_upd i g n : (forall s d, fst (g (s, d)) = s) -> forall p, walk p (upd_node i g n) = walk p n.
+Proof.
+  intros Hg. induction n as [j t s d k IH] using node_ind'. intros p. cbn [upd_node].
+  assert (Hk : forall q, flat_map (walk q) (map (upd_node i g) k) = flat_map (walk q) k).
+  { intros q. rewrite flat_map_map. apply flat_map_ext_Forall.
+    eapply Forall_impl; [|exact IH]. intros a Ha. apply Ha. }
+  destruct (j =? i)%nat.
+  - destruct (g (s, d)) as [s' d'] eqn:Eg. cbn [walk]. rewrite Hk.
+    replace s' with s by (specialize (Hg s d); rewrite Eg in Hg; symmetry; exact Hg). reflexivity.
+  - cbn [walk]. now rewrite Hk.
+Qed.
+
+Theorem cp2k_refs_upd i g roots : (forall s d, fst (g (s, d)) = s) ->
+  cp2k_refs (map (upd_node i g) roots) = cp2k_refs roots.
+Proof.
+  intros Hg. unfold cp2k_refs. f_equal. rewrite flat_map_map. apply flat_map_ext_Forall.
+  apply Forall_forall. intros n _. now apply walk_upd.
+Qed.
+
+(* ---- update_node on an existing target, data given as a dict, nothing appended to the settings *)
+Definition upd_plain (u : cp2k_upd) : Prop := u_replace u = false /\ u_setts u = [].
+Definition data_edit (u : cp2k_upd) (sd : list str * list str) : list str * list str :=
+  (fst sd, cp2k_update_data (u_data u) (snd sd)).
+
+Theorem cp2k_tree_update_exact st u i ss : upd_plain u -> lookup (u_target u) (t_refs st) = Some (i, ss) ->
+  exists st', cp2k_update1 st u = Some st' /\
+    flat_map flat (t_roots st') = map (upd_entry i (data_edit u)) (flat_map flat (t_roots st)) /\
+    map shape (t_roots st') = map shape (t_roots st) /\
+    t_refs st' = t_refs st /\ cp2k_refs (t_roots st') = cp2k_refs (t_roots st).
+Proof.
+  intros (Hr & Hs) Hl. unfold cp2k_update1. rewrite Hl, Hr, Hs. eexists. split; [reflexivity|]. cbn [t_roots t_refs].
+  set (g := fun sd : list str * list str => let '(s, d) := sd in (s ++ [], cp2k_update_data (u_data u) d)).
+  assert (Eg : forall x, g x = data_edit u x).
+  { intros [s d]. unfold g, data_edit. cbn [fst snd]. now rewrite app_nil_r. }
+  split; [|split; [|split]].
+  - rewrite flat_map_map, map_flat_map. apply flat_map_ext_Forall. apply Forall_forall. intros n _.
+    rewrite upd_node_flat. apply map_ext. intros [[j t] sd]. unfold upd_entry. destruct (j =? i)%nat; [now rewrite Eg|reflexivity].
+  - rewrite map_map. apply map_ext. intros n. apply upd_node_shape.
+  - reflexivity.
+  - apply cp2k_refs_upd. intros s d. rewrite Eg. reflexivity.
+Qed.
+
+Theorem cp2k_tree_update_idempotent st u i ss st' : upd_plain u -> cp2k_settings_ok (u_data u) ->
+  lookup (u_target u) (t_refs st) = Some (i, ss) -> cp2k_update1 st u = Some st' ->
+  cp2k_update1 st' u = Some st'.
+Proof.
+  intros (Hr & Hs) Hok Hl H. unfold cp2k_update1 in *. rewrite Hl, Hr, Hs in H. inversion H; subst st'. clear H.
+  cbn [t_refs t_roots t_next]. rewrite Hl, Hr, Hs. do 2 f_equal. rewrite map_map. apply map_ext. intros n.
+  apply upd_node_idem. intros [s d]. rewrite !app_nil_r. f_equal. now apply cp2k_update_idempotent.
+Qed.
+
+(* replace = True: settings and data are overwritten, hence idempotent as well *)
+Theorem cp2k_tree_replace_idempotent st u i ss st' : u_replace u = true ->
+  lookup (u_target u) (t_refs st) = Some (i, ss) -> cp2k_update1 st u = Some st' ->
+  cp2k_update1 st' u = Some st'.
+Proof.
+  intros Hr Hl H. unfold cp2k_update1 in *. rewrite Hl, Hr in H. inversion H; subst st'. clear H.
+  cbn [t_refs t_roots t_next]. rewrite Hl, Hr. do 2 f_equal. rewrite map_map. apply map_ext. intros n.
+  apply upd_node_idem. intros [s d]. reflexivity.
+Qed.
+
+(* ---- reading back what dfs_print wrote *)
+Definition tok (t : str) : Prop := no_space t /\ t <> [].
+
+Lemma strip_clean c r b : is_space c = false -> no_space b -> b <> [] -> strip (c :: r ++ b) = c :: r ++ b.
+Proof.
+  intros Hc Hb Hne. unfold strip. rewrite (lstrip_first c (r ++ b) Hc).
+  change (c :: r ++ b) with ((c :: r) ++ b). now apply rstrip_app_nospace.
+Qed.
+
+Lemma strip_indent k l : strip (repeat c_sp k ++ l) = strip l.
+Proof. unfold strip. now rewrite lstrip_spaces_app by apply spaces_repeat. Qed.
+
+Lemma tokens_join_sp : forall s, Forall tok s -> tokens_aux [] (join_sp s) = s.
+Proof.
+  induction s as [|a r IH]; intros H; [reflexivity|]. inversion H as [|? ? (Ha & Hne) Hr]; subst.
+  destruct r as [|b r'].
+  - cbn [join_sp]. now apply tokens_tok_end.
+  - change (join_sp (a :: b :: r')) with (a ++ c_sp :: join_sp (b :: r')).
+    rewrite tokens_tok_sp by (try assumption; reflexivity). f_equal. now apply IH.
+Qed.
+
+Lemma join_sp_last : forall s x, exists a, join_sp (s ++ [x]) = a ++ x.
+Proof.
+  induction s as [|y r IH]; intros x.
+  - exists []. reflexivity.
+  - destruct (IH x) as (a & Ha). destruct r as [|z r'].
+    + exists (y ++ [c_sp]). cbn. now rewrite <- app_assoc.
+    + exists (y ++ c_sp :: a). change (join_sp ((y :: z :: r') ++ [x])) with (y ++ c_sp :: join_sp ((z :: r') ++ [x])).
+      rewrite Ha. now rewrite <- app_assoc.
+Qed.
+
+(* header text after the ampersand *)
+Definition hdr_body (t : str) (s : list str) : str := t ++ (if is_nil s then [] else c_sp :: join_sp s).
+
+Lemma hdr_body_end t s : tok t -> Forall tok s -> exists a b, hdr_body t s = a ++ b /\ no_space b /\ b <> [].
+Proof.
+  intros (Ht & Hne) Hs. unfold hdr_body. destruct s as [|x r].
+  - exists [], t. cbn. rewrite app_nil_r. auto.
+  - cbn [is_nil]. destruct (@exists_last _ (x :: r) ltac:(discriminate)) as (s' & y & E). rewrite E.
+    destruct (join_sp_last s' y) as (a & Ha). rewrite Ha. exists (t ++ c_sp :: a), y.
+    split; [now rewrite <- app_assoc|]. rewrite E in Hs. apply Forall_app in Hs. destruct Hs as [_ Hy].
+    inversion Hy as [|? ? (H1 & H2) _]; subst. auto.
+Qed.
+
+Lemma hdr_tokens t s : tok t -> Forall tok s -> tokens (hdr_body t s) = t :: s.
+Proof.
+  intros (Ht & Hne) Hs. unfold tokens, hdr_body. destruct s as [|x r].
+  - cbn. rewrite app_nil_r. now apply tokens_tok_end.
+  - cbn [is_nil]. rewrite tokens_tok_sp by (try assumption; reflexivity). f_equal. now apply tokens_join_sp.
+Qed.
+
+Definition not_end (t : str) : Prop := is_prefix s_end (map lower (t ++ [c_sp])) = false.
+
+Lemma not_end_hdr t s : not_end t -> no_space t -> is_prefix s_end (map lower (hdr_body t s)) = false.
+Proof.
+  unfold not_end, hdr_body. intros H Hs.
+  destruct t as [|a [|b [|c t']]]; destruct s as [|x r]; cbn [is_nil app map is_prefix s_end] in *; try exact H;
+    repeat match goal with |- context [?u =? ?v] => destruct (u =? v); cbn [andb] end; try reflexivity; try discriminate;
+    cbn in H; repeat match type of H with context [?u =? ?v] => destruct (u =? v); cbn [andb] in H end; try discriminate; try reflexivity.
+Qed.
+
+Definition wf_data (l : str) : Prop := strip l = l /\ match l with c :: _ => c <> c_amp | [] => False end.
+Inductive wf_node : node -> Prop :=
+| WF i t s d k : tok t -> map upper t = t -> not_end t -> Forall tok s -> Forall wf_data d ->
+                 Forall wf_node k -> wf_node (Node i t s d k).
+Fixpoint unid (n : node) : node := match n with Node _ t s d k => Node 0 t s d (map unid k) end.
+
+Lemma line_open_sec lvl t s nx stk roots : tok t -> map upper t = t -> not_end t -> Forall tok s ->
+  cp2k_line (mkR nx stk roots) (repeat c_sp lvl ++ c_amp :: t ++ (if is_nil s then [] else c_sp :: join_sp s)) =
+  Some (mkR (S nx) (Node nx t s [] [] :: stk) roots).
+Proof.
+  intros Ht Hu Hn Hs. unfold cp2k_line. rewrite strip_indent. fold (hdr_body t s).
+  destruct (hdr_body_end t s Ht Hs) as (a & b & E & Hb & Hbne).
+  assert (Es : strip (c_amp :: hdr_body t s) = c_amp :: hdr_body t s).
+  { rewrite E. now apply strip_clean. }
+  rewrite Es. rewrite Z.eqb_refl. rewrite not_end_hdr by (try exact Hn; apply Ht).
+  rewrite hdr_tokens by assumption. cbn [r_next r_stack r_roots]. now rewrite Hu.
+Qed.
+
+Lemma line_data lvl l nx i t s d k stk roots : wf_data l ->
+  cp2k_line (mkR nx (Node i t s d k :: stk) roots) (repeat c_sp lvl ++ c_sp :: c_sp :: l) =
+  Some (mkR nx (Node i t s (d ++ [l]) k :: stk) roots).
+Proof.
+  intros (Hs & Hc). unfold cp2k_line. rewrite strip_indent.
+  change (c_sp :: c_sp :: l) with (repeat c_sp 2 ++ l). rewrite strip_indent, Hs.
+  destruct l as [|c r]; [contradiction|]. destruct (Z.eqb_spec c c_amp) as [E|_]; [contradiction|]. reflexivity.
+Qed.
+
+Lemma line_end lvl t nx top stk roots : tok t ->
+  cp2k_line (mkR nx (top :: stk) roots) (repeat c_sp lvl ++ s_END ++ t) =
+  Some (let '(stk', roots') := add_kid_top top stk roots in mkR nx stk' roots').
+Proof.
+  intros (Ht & Hne). unfold cp2k_line. rewrite strip_indent.
+  assert (Es : strip (s_END ++ t) = s_END ++ t).
+  { change (s_END ++ t) with (c_amp :: [69; 78; 68; 32] ++ t). now apply strip_clean. }
+  rewrite Es. change (s_END ++ t) with (c_amp :: 69 :: 78 :: 68 :: 32 :: t). cbv beta iota. rewrite Z.eqb_refl.
+  replace (is_prefix s_end (map lower (69 :: 78 :: 68 :: 32 :: t))) with true by reflexivity.
+  cbn [r_stack r_roots r_next]. destruct (add_kid_top top stk roots). reflexivity.
+Qed.
+
+Lemma lines_data lvl d : Forall wf_data d -> forall nx i t s d0 k stk roots rest,
+  cp2k_lines (mkR nx (Node i t s d0 k :: stk) roots) (map (fun l => repeat c_sp lvl ++ c_sp :: c_sp :: l) d ++ rest) =
+  cp2k_lines (mkR nx (Node i t s (d0 ++ d) k :: stk) roots) rest.
+Proof.
+  induction 1 as [|l r Hl _ IH]; intros; cbn [map app cp2k_lines].
+  - now rewrite app_nil_r.
+  - rewrite line_data by exact Hl. rewrite IH. now rewrite <- app_assoc.
+Qed.
+
+Definition reads_back (n : node) : Prop := wf_node n -> forall lvl nx stk roots rest,
+  exists n' nx', unid n' = unid n /\
+    cp2k_lines (mkR nx stk roots) (print_node lvl n ++ rest) =
+    cp2k_lines (let '(stk', roots') := add_kid_top n' stk roots in mkR nx' stk' roots') rest.
+
+Lemma lines_kids lvl k : Forall reads_back k -> Forall wf_node k -> forall k0 nx i t s d stk roots rest,
+  exists k' nx', map unid k' = map unid k /\
+    cp2k_lines (mkR nx (Node i t s d k0 :: stk) roots) (flat_map (print_node lvl) k ++ rest) =
+    cp2k_lines (mkR nx' (Node i t s d (k0 ++ k') :: stk) roots) rest.
+Proof.
+  induction 1 as [|n r Hn _ IH]; intros Hwf; intros.
+  - exists [], nx. split; [reflexivity|]. cbn. now rewrite app_nil_r.
+  - inversion Hwf as [|? ? Hw Hwr]; subst. cbn [flat_map]. rewrite <- app_assoc.
+    destruct (Hn Hw lvl nx (Node i t s d k0 :: stk) roots (flat_map (print_node lvl) r ++ rest)) as (n' & nx1 & Eu & E).
+    rewrite E. cbn [add_kid_top].
+    destruct (IH Hwr (k0 ++ [n']) nx1 i t s d stk roots rest) as (k' & nx2 & Eu2 & E2).
+    exists (n' :: k'), nx2. split; [cbn [map]; now rewrite Eu, Eu2|]. rewrite E2. now rewrite <- app_assoc.
+Qed.
+
+Lemma node_reads_back n : reads_back n.
+Proof.
+  induction n as [i t s d k IH] using node_ind'. intros Hwf lvl nx stk roots rest.
+  inversion Hwf as [? ? ? ? ? Ht Hu Hne Hs Hd Hk]; subst.
+  cbn [print_node]. rewrite <- !app_comm_cons. cbn [cp2k_lines].
+  rewrite line_open_sec by assumption. rewrite <- !app_assoc.
+  rewrite (lines_data (2 * lvl) d Hd). cbn [app].
+  destruct (lines_kids (S lvl) k IH Hk [] (S nx) nx t s d stk roots ((repeat c_sp (2 * lvl) ++ s_END ++ t) :: rest)) as (k' & nx' & Eu & E).
+  exists (Node nx t s d k'), nx'. split; [cbn [unid]; now rewrite Eu|].
+  etransitivity; [exact E|]. cbn [app cp2k_lines]. rewrite line_end by exact Ht. reflexivity.
+Qed.
+
+Lemma forest_reads_back : forall roots, Forall wf_node roots -> forall nx roots0,
+  exists roots' nx', map unid roots' = map unid roots /\
+    cp2k_lines (mkR nx [] roots0) (cp2k_print roots) = Some (mkR nx' [] (roots0 ++ roots')).
+Proof.
+  induction roots as [|n r IH]; intros Hwf nx roots0.
+  - exists [], nx. split; [reflexivity|]. cbn. now rewrite app_nil_r.
+  - inversion Hwf as [|? ? Hn Hr]; subst. cbn [cp2k_print].
+    destruct (node_reads_back n Hn 0%nat nx [] roots0 (match r with [] => [] | _ :: _ => [] :: cp2k_print r end)) as (n' & nx1 & Eu & E).
+    rewrite E. cbn [add_kid_top].
+    destruct (IH Hr nx1 (roots0 ++ [n'])) as (r' & nx2 & Eu2 & E2).
+    exists (n' :: r'), nx2. split; [cbn [map]; now rewrite Eu, Eu2|].
+    destruct r as [|m r0].
+    + cbn [cp2k_lines]. cbn in E2. inversion E2; subst. destruct r'; [|discriminate]. reflexivity.
+    + cbn [cp2k_lines]. replace (cp2k_line (mkR nx1 [] (roots0 ++ [n'])) []) with (Some (mkR nx1 [] (roots0 ++ [n']))) by reflexivity.
+      rewrite E2. now rewrite <- app_assoc.
+Qed.
+
+(* the text written for a forest of sections reads back as the same forest (titles,
+   settings, data lines, nesting and order; the creation numbers are new) *)
+Theorem cp2k_read_print roots : Forall wf_node roots ->
+  exists nx roots', cp2k_read (cp2k_print roots) = Some (nx, roots') /\ map unid roots' = map unid roots.
+Proof.
+  intros H. destruct (forest_reads_back roots H 0%nat []) as (roots' & nx & Eu & E).
+  exists nx, roots'. split; [|exact Eu]. unfold cp2k_read. rewrite E. reflexivity.
+Qed.
